@@ -9,7 +9,7 @@ def run(ctx):
     if not ctx.build_driver():
         return
     h = _v2.match_stream(ctx, 'generic')
-    if h and _v2.harness(ctx, 'c0203'):
+    if _v2.harness(ctx, 'c0203'):   # the oracle runs even when the model-stream harness failed
         for (name, vf, cf) in [('well-formed-results', 'c03.verdicts', 'c0203.cases')]:
             ctx.oracle_stream(name, ctx.rundir + '/' + vf, ctx.rundir + '/' + cf)
     ctx.cov['distinct_nontrivial'] = sum(v['nontrivial'] for v in ctx.cov['streams'].values())
